@@ -18,6 +18,7 @@ func init() {
 			"D2 the collector: required = 1 | floor(n/2)+1 | n evaluated by constant folding for n=1..64, the level switch covers the registry of models.ConsistencyLevel, success only under wrote >= required, wrote incremented only for nil results, partial/failed/timeout classification; " +
 			"D3 a remote write is acknowledged only after the store returned nil / the response code was 0 (frozen exceptions: shard group gone, request without db/rp); D5 a failed framed exchange poisons the pooled connection; D6 one hinted-handoff processor per (node, shard): creation is re-checked under the write lock. " +
 			"D2 also: the collector loop is left only by a classified return or by running out of owners (no break/goto); D7 no call into the handoff path transposes its two same-typed ids (argument names against the callee's parameter names). " +
+			"D8 no owner goroutine passes the batch it shares with the others to a callee that stores into its elements (shared with C19 D11). " +
 			"NOT decided: timing (within the timeout), scheduling of the owner goroutines.",
 		RuleText:    "obligation = (rule, function, path class); path exploration of the owner closure with markers for the handoff call and outcome/branch facts; integer expression evaluation of the quorum formula over n=1..64",
 		Assumptions: commonAssumptions,
